@@ -7,9 +7,10 @@ from harness.core import SPECS
 
 def design(chk, module, cfgs_ok, cfgs_expect):
     """TLC on the design spec: `cfgs_ok` must hold; `cfgs_expect` = {cfg: invariant the as-coded variant violates}."""
+    big = module == "ServerStack"          # millions of states: no per-expression coverage counters, more workers
     for c in cfgs_ok:
         res = tlc.run(SPECS / ("server/MC_%s.tla" % module), SPECS / ("server/MC_%s_%s.cfg" % (module, c)),
-                      workdir=chk.work, deadlock=False, workers=4)
+                      workdir=chk.work, deadlock=False, workers=10 if big else 4, coverage=not big)
         chk.record_tlc("%s/%s" % (module, c), res)
         if res.violated:
             chk.violation("model:%s:%s:%s" % (module, c, res.violated),
@@ -18,10 +19,62 @@ def design(chk, module, cfgs_ok, cfgs_expect):
             chk.require_tlc_ok(c, res)
     for c, inv in cfgs_expect.items():
         res = tlc.run(SPECS / ("server/MC_%s.tla" % module), SPECS / ("server/MC_%s_%s.cfg" % (module, c)),
-                      workdir=chk.work, deadlock=False, workers=4)
+                      workdir=chk.work, deadlock=False, workers=4, coverage=not big)
         chk.record_tlc("%s/%s" % (module, c), res)
         if res.violated != inv:
             chk.note("%s.tla (%s, code as it is) was expected to violate %s; TLC says %s %s" % (module, c, inv, res.violated, res.error))
+
+
+def conform_server(chk):
+    """Every execution of the real server stack recorded since the last call vs ServerStack.tla, line by line
+    (TraceServer.tla; the invariants of ServerStack.tla are evaluated in every state of every trace).  Evidence: drift is
+    a note, never a verdict."""
+    import json
+    from concurrent.futures import ThreadPoolExecutor
+    from harness.drivers import server as sv
+    recs = sv.take_traces()
+    groups = {}
+    for r in recs:
+        if r["lines"]:
+            groups.setdefault((r["idle_timeout_ms"], tuple(r["backoffs_ms"])), []).append(r)
+    jobs = sorted(groups.items())
+
+    def one(job):
+        (it, bo), rs = job
+        f = chk.work / ("trace_server_%d_%d.json" % (it, len(bo)))
+        f.write_text(json.dumps({"idle_timeout_ms": it, "backoffs_ms": list(bo), "traces": [{"log": r["lines"]} for r in rs]}))
+        return tlc.run(SPECS / "server/TraceServer.tla", SPECS / "server/TraceServer.cfg", workdir=chk.work, deadlock=False,
+                       coverage=False, workers=2, env={"TRACE_FILE": str(f)}, jvm_opts=tlc.LIGHT, timeout=900)
+
+    with ThreadPoolExecutor(max_workers=4) as ex:
+        results = list(ex.map(one, jobs))
+    ok = lines_ok = 0
+    drift = []
+    for ((it, bo), rs), res in zip(jobs, results):
+        chk.record_tlc("TraceServer/idle_timeout=%d" % it, res, count=False)
+        if res.violated:
+            chk.note("conformance: an invariant of ServerStack.tla (%s) fails in a state of a recorded execution (idle_timeout=%d ms)" % (
+                res.violated, it))
+        elif res.error:
+            chk.note("TraceServer could not be evaluated (idle_timeout=%d ms): %s" % (it, res.error[:200]))
+            continue
+        seen = {}
+        for v in res.prints:
+            if isinstance(v, tuple) and len(v) >= 4 and v[0] == "VERDICT":
+                seen[v[1]] = (v[2], v[3])
+        for i, r in enumerate(rs, 1):
+            clause, at = seen.get(i, ("no_verdict", 0))
+            if clause == "ok":
+                ok += 1
+                lines_ok += len(r["lines"])
+            else:
+                lines_ok += max(0, at - 1)
+                drift.append((clause, at, r["lines"][at - 1] if 0 < at <= len(r["lines"]) else None, it))
+    for (clause, at, line, it) in drift[:4]:
+        chk.note("conformance drift: the recorded server execution is not a behaviour of ServerStack.tla -- %s at line %d "
+                 "(idle_timeout=%d ms): %s" % (clause, at, it, json.dumps(line)[:200]))
+    chk.add(server_traces_validated=ok, server_lines_matched=lines_ok, server_trace_drift=len(drift))
+    return ok, drift
 
 
 def judge(chk, pid, cases, key_of, label_of, nontrivial):
@@ -35,6 +88,7 @@ def judge(chk, pid, cases, key_of, label_of, nontrivial):
         eg.standard_run(chk, pid, None, {"case"}, items=items, key_of=key_of, conform=False, nontrivial=nontrivial)
     finally:
         E.cfg_for_tla = orig
+    conform_server(chk)
     chk.assumptions[:] = [
         "real WorkflowServer stack assembled by WorkflowServer.__init__ on SqliteWorkflowStore; starlette/uvicorn stubbed "
         "(HTTP layer not exercised); innermost basic_runtime replaced by a recording BasicRuntime subclass",
